@@ -324,6 +324,43 @@ def run(world, rep, tier, only=None):
            any((T.path(arg(n, 0)) or "").endswith("move_blocks") for n in mk),
            "marks in rfs->reserve_blocks and rfs->move_blocks: %s" % sorted({T.path(arg(n, 0)) for n in mk}))
 
+    # ------------------------------------------------------------------ C20.f the backup search starts afresh for every block size
+    # get_backup_sb() tries each block size in turn and, for each, walks the prescribed backup groups with the
+    # ext2fs_list_backups() iterator.  The iterator state must be initialised inside the block-size loop: initialised
+    # once, it is exhausted by the first (1k) pass and no larger block size ever probes a backup.
+    ef = world.program("e2fsck")
+    gb = ef.fn("get_backup_sb", "e2fsck/util.c")
+    lbs = calls_to(gb, "ext2fs_list_backups")
+    rep.floor("C20.f ext2fs_list_backups call in get_backup_sb", len(lbs), 1)
+    for c_ in lbs:
+        inner = loop_head(gb, c_)
+        ivars = []
+        for a in c_.ev["x"].get("a", []):
+            a0 = T.strip(a)
+            if isinstance(a0, dict) and a0.get("k") == "u" and a0.get("o") == "&" and T.path(a0["e"]):
+                ivars.append(T.path(a0["e"]))
+        # the loop around the iteration loop: the innermost loop containing the inner loop's head that is not itself
+        outer = None
+        if inner is not None:
+            cands = []
+            for hb, b in gb.blocks.items():
+                t = b.get("t")
+                if t and t.get("k") in ("for", "while", "do") and hb != inner:
+                    body = loop_body(gb, hb)
+                    if gb.node(inner, 0) in body:
+                        cands.append((len(body), hb))
+            outer = min(cands)[1] if cands else None
+        rep.ob("C20.f", site(gb, "backup groups are searched per block size"), outer is not None and len(ivars) >= 3,
+               "ext2fs_list_backups(&%s) runs in a loop nested in the block-size loop" % ", &".join(ivars))
+        if outer is None:
+            continue
+        obody = loop_body(gb, outer)
+        for v in ivars:
+            inits = [n for n in gb.events("S") if T.path(n.ev["lhs"]) == v and n.ev.get("o") == "=" and T.const(n.ev.get("rhs")) is not None]
+            ok = any(n in obody and gb.dominated_by(gb.node(inner, 0), [n]) for n in inits)
+            rep.ob("C20.f", site(gb, "iterator state `%s` re-initialised for every block size" % v), ok,
+                   "a constant store to %s lies inside the block-size loop and dominates the group walk" % v)
+
 
 def _is_progress(a):
     return "progress_ops" in T.field_names(a)
